@@ -341,8 +341,11 @@ func (d *deriver) obligations(dv *Derived, formatter string) {
 				vr, vv := varOf(p)
 				okID := vr != nil && vr.ID == fmt.Sprintf("p%d_%d_%d", si, j, k)
 				dv.ob("G-DATA/params", "index-preserving", okID, "Params[%d] of method %d/%d is built from %s, want the signature's parameter %d", k, i, j, interp.Show(vr), k)
-				variadic := fieldOf(structOf(p), "Variadic")
-				dv.ob("G-DATA/params", "variadic", variadic == interp.Value(me.Params[k].Variadic), "Params[%d].Variadic=%s of method %d/%d, want %v (only the last parameter of a variadic signature)", k, interp.Show(variadic), i, j, me.Params[k].Variadic)
+				// where the data model marks the variadic parameter on the parameter itself (elsewhere — a flag
+				// of the method — K-IMPL and K-CALLBACK judge the spellings on the skeletons)
+				if variadic := fieldOf(structOf(p), "Variadic"); variadic != nil {
+					dv.ob("G-DATA/params", "variadic", variadic == interp.Value(me.Params[k].Variadic), "Params[%d].Variadic=%s of method %d/%d, want %v (only the last parameter of a variadic signature)", k, interp.Show(variadic), i, j, me.Params[k].Variadic)
+				}
 				if vr != nil {
 					if rec := recOf(vv); rec != nil {
 						if sc == -1 {
